@@ -234,19 +234,23 @@ trait Poller {
     /// one poll_next: (item, reads answered during the call, bytes delivered so far)
     fn poll(&mut self) -> (Item, Vec<Value>, usize);
     fn reads(&mut self) -> usize;
+    /// the Framed is taken apart and put together again (into_parts/from_parts, into_map_io, into_map_codec): buffered
+    /// bytes, flags and codec state must carry over - for the specification this is a stuttering step
+    fn rebuild(&mut self, kind: usize);
 }
 struct Run<U: Decoder> {
-    framed: Framed<ScriptRead, U>,
+    framed: Option<Framed<ScriptRead, U>>,
     conv: fn(U::Item) -> Item,
     wakers: Wakers,
 }
 impl<U: Decoder<Error = io::Error> + Unpin> Poller for Run<U> {
     fn poll(&mut self) -> (Item, Vec<Value>, usize) {
-        self.framed.io_mut().log.clear();
+        let framed = self.framed.as_mut().expect("framed");
+        framed.io_mut().log.clear();
         let waker = self.wakers.waker(1);
         let mut cx = Context::from_waker(&waker);
         let conv = self.conv;
-        let r = catch(|| match Pin::new(&mut self.framed).poll_next(&mut cx) {
+        let r = catch(|| match Pin::new(&mut *framed).poll_next(&mut cx) {
             Poll::Pending => ("pending", vec![]),
             Poll::Ready(None) => ("none", vec![]),
             Poll::Ready(Some(Ok(it))) => conv(it),
@@ -255,11 +259,19 @@ impl<U: Decoder<Error = io::Error> + Unpin> Poller for Run<U> {
             Poll::Ready(Some(Err(_))) => ("err:other", vec![]),
         });
         let item = r.unwrap_or(("panic", vec![]));
-        let t = self.framed.io_mut();
+        let t = framed.io_mut();
         (item, t.log.clone(), t.pos)
     }
     fn reads(&mut self) -> usize {
-        self.framed.io_mut().reads
+        self.framed.as_mut().expect("framed").io_mut().reads
+    }
+    fn rebuild(&mut self, kind: usize) {
+        let f = self.framed.take().expect("framed");
+        self.framed = Some(match kind % 3 {
+            0 => Framed::from_parts(f.into_parts()),
+            1 => f.into_map_io(|io| io),
+            _ => f.into_map_codec(|c| c),
+        });
     }
 }
 fn new_run(codec: &str, input: Vec<u8>, script: VecDeque<(String, usize)>, scale: usize, bad: u8) -> Box<dyn Poller> {
@@ -267,7 +279,7 @@ fn new_run(codec: &str, input: Vec<u8>, script: VecDeque<(String, usize)>, scale
     let wakers = Wakers::new(1);
     match codec {
         "lp" | "lpe" => Box::new(Run {
-            framed: Framed::new(io, LpCodec { scale, bad, end_frame: codec == "lpe", ended: false }),
+            framed: Some(Framed::new(io, LpCodec { scale, bad, end_frame: codec == "lpe", ended: false })),
             conv: |i| match i {
                 LpItem::Frame(v) => ("ok", v),
                 LpItem::Tail(v) => ("tail", v),
@@ -276,11 +288,11 @@ fn new_run(codec: &str, input: Vec<u8>, script: VecDeque<(String, usize)>, scale
             wakers,
         }),
         "lines" => Box::new(Run {
-            framed: Framed::new(io, LinesCodec::default()),
+            framed: Some(Framed::new(io, LinesCodec::default())),
             conv: |s: String| ("ok", s.into_bytes()),
             wakers,
         }),
-        _ => Box::new(Run { framed: Framed::new(io, BytesCodec), conv: |b: BytesMut| ("ok", b.to_vec()), wakers }),
+        _ => Box::new(Run { framed: Some(Framed::new(io, BytesCodec)), conv: |b: BytesMut| ("ok", b.to_vec()), wakers }),
     }
 }
 
@@ -345,6 +357,9 @@ pub fn main(long: bool) {
         let mut err_delivered = false;
         let mut bad = false;
         for (k, exp) in polls.iter().enumerate() {
+            if run % 3 == 1 && k > 0 {
+                r.rebuild(run / 3 + k); // taken apart and rebuilt between two polls
+            }
             let (item, io, pos) = r.poll();
             err_delivered |= io.iter().any(|a| a["a"] == "err");
             let obs = json!({"ev": "poll", "run": run, "io": io, "res": item_json(&item), "pos": pos});
@@ -468,6 +483,9 @@ fn main_long(mut trace: Trace) {
         let mut err_delivered = false;
         let mut polls = 0usize;
         loop {
+            if run % 2 == 1 && polls > 0 && polls % 3 == 0 {
+                r.rebuild(polls);
+            }
             let (item, io, _pos) = r.poll();
             polls += 1;
             for a in &io {
